@@ -141,11 +141,35 @@ example : castType (.struct 1) { ty := Ty.int } = none ∧ castType Ty.int { ty 
 theorem sizeof_typename_accept_sound (t r : Ty) (h : Types.sizeofType t = some r) : sizeofTypeName t = true :=
   sizeofType_sound t r h
 
-/-- **Assignment** `l = r` and `l op= r`: the left operand is an lvalue (6.5.16p2) and, for the
-compound forms, the operands satisfy the constraint of the binary operator (6.5.16.2p1-2). -/
-theorem assign_accept_sound (l r o : Operand) (h : assignType l r = some o) : assignLvalue l = true :=
-  assign_sound l r o h
+/-- **Simple assignment** `l = r`, full strength: the left operand is an lvalue (6.5.16p2) and the
+operand types satisfy 6.5.16.1p1.  (The assignment OPERATOR applies `exprassign` since fix 132893c:
+`int *p; int x; p = x;` used to be accepted.) -/
+def assign_accept_sound_full : Prop :=
+  ∀ (l r o : Operand), assignType l r = some o → assignLvalue l = true ∧ simpleAssign l.ty r = true
 
+/-- `void g(void); void *p; p = g;` — pointer to function next to pointer to void (see
+`ptr_assign_accept_sound_counterexample`) -/
+theorem assign_accept_sound_counterexample : ¬ assign_accept_sound_full := by
+  intro h
+  have := (h { ty := .ptr {} .void, lvalue := true } { ty := .ptr {} (.func {} .void [] false) } _ rfl).2
+  exact absurd this (by decide)
+
+theorem assign_accept_sound_partial (l r o : Operand) (hx : voidVsFuncPtr l.ty r.ty = false)
+    (h : assignType l r = some o) : assignLvalue l = true ∧ simpleAssign l.ty r = true :=
+  assign_sound l r o hx h
+
+-- the witnesses of `assign-operator-unchecked` are rejected: p = x, p = 1.5, s = t
+example : assignType { ty := .ptr {} Ty.int, lvalue := true } { ty := Ty.int } = none ∧
+    assignType { ty := .ptr {} Ty.int, lvalue := true } { ty := .arith (.basic .double) } = none ∧
+    assignType { ty := .struct 1, lvalue := true } { ty := .struct 2 } = none := by decide
+example : (assignType { ty := .ptr {} Ty.int, lvalue := true } { ty := Ty.int, nullconst := true }).isSome = true := by decide
+/-- a member of array type is not an lvalue (fix 2005721: `p->m += 2`, `p->m = q`, `s.arr++`) -/
+example : (memberType true { ty := .ptr {} (.struct 0) } (.arr {} (.const 4) {} Ty.int) {} none).map (·.lvalue) = some false := by
+  decide
+example : (memberType true { ty := .ptr {} (.struct 0) } Ty.int {} none).map (·.lvalue) = some true := by decide
+
+/-- **Compound assignment** `l op= r`: the left operand is an lvalue and the operands satisfy the
+constraint of the binary operator (6.5.16.2p1-2). -/
 theorem compound_assign_accept_sound (sc : Bool) (op : BinOp) (l r o : Operand) (ol : OperandOk l)
     (or' : OperandOk r) (h : compoundAssignType sc op l r = some o) :
     assignLvalue l = true ∧ Constraints.binop op { l with decayedFrom := none } r = true :=
